@@ -122,6 +122,17 @@ def theorem_inventory(prop):
                 output=out[-3000:], ok=ok, missing_print=sorted(set(thms) - set(printed)))
 
 
+def coqchk(prop):
+    """Independent re-check of the compiled property file and everything it depends on (thorough tier)."""
+    with Lock("coq"):
+        rc, out = sh(["timeout", "2400", "coqchk", "-silent", "-o", "-Q", ".", "GB", "GB.P_%s" % prop], cwd=COQ)
+    axioms = []
+    m = re.search(r"\* Axioms:\s*(.*?)(?:\n\s*\n|\* |\Z)", out, re.S)
+    if m:
+        axioms = [l.strip() for l in m.group(1).splitlines() if l.strip()]
+    return dict(ok=rc == 0, axioms=axioms, tail=out[-1500:])
+
+
 def eval_shard(prop, kmod, idx, terms, outdir, extra_imports="", explain=False):
     """Writes cases_<idx>.v with the given case terms and evaluates mismatches/failing."""
     name = "cases_%s_%d" % (prop, idx)
